@@ -204,7 +204,7 @@ Lemma declaration_loop_S f F p : declaration_loop (S f) F p =
          end
      end
    else if is_t t TLeftBrace && (plevel p =? 0) && isstyle p then
-     POk (GBeginRuleset, push_st (set_tok p TWhitespace []) SQualifiedRuleDeclarationList)
+     POk (GBeginRuleset, push_st (set_tok (set_buf p (sel_compact [] false (pbuf p))) TWhitespace []) SQualifiedRuleDeclarationList)
    else if closes t && (plevel p =? 0) then parse_declaration_error F (set_err p true) t d
    else
      let p := adjust_level p t in
